@@ -516,9 +516,26 @@ func c08Profiles(tier Tier) []*explore.Profile {
 	// the system contract freezes and releases single holdings (ESDTFreeze / ESDTUnFreeze of
 	// token||nonce) between the hops: no control call may alter the metadata of the holding it flags
 	freezeCycle := &explore.Profile{
-		Name: "freeze-cycle", EnvCfg: ledgerEnv(2), Depth: depth - 3, Deadline: tierDeadline(tier), Oracles: orc, Seeds: routes.Seeds,
+		Name: "freeze-cycle", EnvCfg: ledgerEnv(2), Depth: depth - 3, Deadline: tierDeadline(tier), Oracles: orc,
+		Seeds: func(env *world.Env) []explore.SeedState {
+			out := routes.Seeds(env)
+			// two NFTs of one collection, the first with every field filled, the second as sparse
+			// as a creation allows: sent together, each has to arrive with its own metadata
+			b := uni.NewBuilder(env)
+			b.Must(uni.SetRole(uni.A0, uni.S, uni.NFTRoles...))
+			b.Must(createWith(uni.A0, uni.S, metaTuple{name: []byte("first"), roy: uni.Big(500), hash: []byte("hash-1"), attr: []byte("attributes-1"), uris: [][]byte{[]byte("uri-1a"), []byte("uri-1b")}, q: 2}))
+			b.Must(createWith(uni.A0, uni.S, metaTuple{name: []byte("n"), roy: uni.Big(0), hash: []byte{}, attr: []byte{}, uris: [][]byte{{}}, q: 2}))
+			return append(out, explore.SeedState{Name: "rich-and-sparse", W: b.W, Legs: b.Legs, Failed: b.Failed})
+		},
 		Menu: func(w *world.World) []world.Action {
-			return append(hopMenu(w, o, uni.S, []int64{1}, false), nftFreezeMenu(w, [][]byte{uni.A0, uni.B0, uni.C1})...)
+			acts := append(append(hopMenu(w, o, uni.S, []int64{1}, false), nftFreezeMenu(w, [][]byte{uni.A0, uni.B0, uni.C1})...), forgedArrivals(w)...)
+			if held(w, uni.A0, tS1) > 0 && held(w, uni.A0, tS2) > 0 {
+				for _, to := range [][]byte{uni.B0, uni.C1} {
+					acts = append(acts, uni.Multi(uni.A0, to, []uni.Ent{{Tok: uni.S, Nonce: 1, Q: 1}, {Tok: uni.S, Nonce: 2, Q: 1}}),
+						uni.Multi(uni.A0, to, []uni.Ent{{Tok: uni.S, Nonce: 2, Q: 1}, {Tok: uni.S, Nonce: 1, Q: 1}}))
+				}
+			}
+			return acts
 		},
 	}
 	// two creators (undisciplined system contract): the same (token, nonce) with different hashes
